@@ -16,11 +16,14 @@ import scipy.linalg as sla
 
 SYSTEMS = (
     "euclidean", "gaussian", "constrained", "constrained_nh", "gaussian_constrained",
-    "riem_scalar", "riem_diag", "riem_chol", "riem_dense", "riem_softabs",
+    "riem_scalar", "riem_diag", "riem_chol", "riem_dense", "riem_softabs", "riem_generic",
 )
 TRACTABLE = ("euclidean", "gaussian", "constrained", "constrained_nh", "gaussian_constrained")
 CONSTRAINED = ("constrained", "constrained_nh", "gaussian_constrained")
-RIEMANNIAN = ("riem_scalar", "riem_diag", "riem_chol", "riem_dense", "riem_softabs")
+RIEMANNIAN = ("riem_scalar", "riem_diag", "riem_chol", "riem_dense", "riem_softabs", "riem_generic")
+# metric classes / keyword options reachable only through the generic RiemannianMetricSystem(metric_matrix_class=...,
+# metric_kwargs=...): upper-triangular factor, low-rank update (+/-) of a fixed matrix, rectangular-factor product
+GENERIC_RIEMANNIAN = ("chol_upper", "lowrank_plus", "lowrank_minus", "dense_product", "dense_product_inner")
 CONST_METRICS = (
     "none", "identity", "scaled", "diag_array", "diag", "dense_array", "dense", "chol_lower", "chol_upper", "eig",
     "block", "lowrank_plus", "lowrank_minus", "softabs_const", "product", "derived",
@@ -121,15 +124,41 @@ class MetricParam:
             self.M0, _, _ = random_spd(rng, dim, 1.0, 2.5)
             s = rng.standard_normal((dim, dim, dim)) * (0.25 / dim)
             self.S = (s + s.transpose(0, 2, 1)) / 2
+        elif kind == "riem_generic:chol_upper":
+            self.L0 = np.triu(rng.standard_normal((dim, dim)) * 0.3, 1) + np.diag(1.0 + rng.uniform(0, 1, dim))
+            self.T = np.stack([np.triu(rng.standard_normal((dim, dim))) * (0.2 / dim) for _ in range(dim)])
+        elif kind.startswith("riem_generic:lowrank"):
+            self.r = max(1, dim // 2)
+            self.base = rng.uniform(0.8, 2.0, dim)
+            self.sign = 1 if kind.endswith("plus") else -1
+            scale = 0.5 if self.sign == 1 else 0.12
+            self.L0 = rng.standard_normal((dim, self.r)) * scale
+            self.T = np.stack([rng.standard_normal((dim, self.r)) * (0.15 / dim) for _ in range(dim)])
+        elif kind.startswith("riem_generic:dense_product"):
+            self.k = dim + 1
+            self.L0 = np.hstack([np.identity(dim) * (1.0 + rng.uniform(0, 0.5, dim)), rng.standard_normal((dim, 1)) * 0.3])
+            self.T = np.stack([rng.standard_normal((dim, self.k)) * (0.15 / dim) for _ in range(dim)])
+            self.inner = rng.uniform(0.6, 1.8, self.k) if kind.endswith("inner") else None
         else:
             raise ValueError(kind)
+
+    def generic_class_and_kwargs(self):
+        """(metric_matrix_class, metric_kwargs) for the generic RiemannianMetricSystem."""
+        from mici import matrices as mm
+
+        if self.kind == "riem_generic:chol_upper":
+            return mm.TriangularFactoredPositiveDefiniteMatrix, {"factor_is_lower": False}
+        if self.kind.startswith("riem_generic:lowrank"):
+            return mm.PositiveDefiniteLowRankUpdateMatrix, {"pos_def_matrix": mm.PositiveDiagonalMatrix(self.base.copy()), "sign": self.sign}
+        kw = {} if self.inner is None else {"pos_def_matrix": mm.PositiveDiagonalMatrix(self.inner.copy())}
+        return mm.DensePositiveDefiniteProductMatrix, kw
 
     def value(self, q):
         if self.kind == "riem_scalar":
             return 1.0 + 0.5 * np.tanh(self.b @ q)
         if self.kind == "riem_diag":
             return 1.0 + 0.5 * np.tanh(self.B @ q)
-        if self.kind == "riem_chol":
+        if self.kind == "riem_chol" or self.kind.startswith("riem_generic"):
             return self.L0 + np.einsum("k,kij->ij", np.tanh(q), self.T)
         return self.M0 + np.einsum("k,kij->ij", np.tanh(q), self.S)
 
@@ -141,7 +170,7 @@ class MetricParam:
             jac = (0.5 / np.cosh(self.B @ q) ** 2)[:, None] * self.B
             return lambda v: v @ jac
         sech2 = 1 / np.cosh(q) ** 2
-        t = self.T if self.kind == "riem_chol" else self.S
+        t = self.S if self.kind == "riem_dense" else self.T
         return lambda v: np.einsum("ij,kij->k", v, t) * sech2
 
     def dense(self, q):
@@ -153,6 +182,13 @@ class MetricParam:
         if self.kind == "riem_chol":
             lo = np.tril(v)
             return lo @ lo.T
+        if self.kind == "riem_generic:chol_upper":
+            up = np.triu(v)
+            return up @ up.T
+        if self.kind.startswith("riem_generic:lowrank"):
+            return np.diag(self.base) + self.sign * v @ v.T
+        if self.kind.startswith("riem_generic:dense_product"):
+            return v @ v.T if self.inner is None else (v * self.inner) @ v.T
         return v
 
 
@@ -446,6 +482,17 @@ class Model:
             self.system = mici.systems.SoftAbsRiemannianMetricSystem(
                 neg_log_dens, grad_neg_log_dens=grad, hess_neg_log_dens=hess, mtp_neg_log_dens=mtp,
                 softabs_coeff=self.softabs_coeff)
+        elif kind == "riem_generic":
+            mp = MetricParam("riem_generic:" + spec.get("generic", "chol_upper"), dim, _rng(seed, 14))
+            self.metric_param = mp
+            mfunc = wrap("metric_func", lambda q: mp.value(q))
+            if conv.get("vjp", 0):
+                vjp = wrap("vjp_metric_func", lambda q: (mp.vjp(q), mp.value(q)))
+            else:
+                vjp = wrap("vjp_metric_func", lambda q: mp.vjp(q))
+            mcls, mkw = mp.generic_class_and_kwargs()
+            self.system = mici.systems.RiemannianMetricSystem(
+                neg_log_dens, mcls, mfunc, vjp_metric_func=vjp, grad_neg_log_dens=grad, metric_kwargs=mkw)
         elif kind in RIEMANNIAN:
             mp = MetricParam(kind, dim, _rng(seed, 14))
             self.metric_param = mp
@@ -603,6 +650,9 @@ def random_sys_spec(rng, kinds=SYSTEMS, dim_range=(1, 6), metrics=CONST_METRICS)
         spec["metric"] = str(rng.choice(list(metrics)))
     if kind == "riem_softabs":
         spec["softabs_coeff"] = float(10 ** rng.uniform(-1, 1))
+    if kind == "riem_generic":
+        spec["generic"] = str(rng.choice(list(GENERIC_RIEMANNIAN)))
+        spec["dim"] = max(spec["dim"], 2)
     return spec
 
 
@@ -633,7 +683,7 @@ def self_test(seed: int = 0) -> list[str]:
         ref = np.einsum("ij,ijk->k", m, fd_grad(tg.hess, q))
         if np.max(np.abs(ref - tg.mtp(q)(m))) > 1e-6:
             problems.append("target mtp")
-        for kind in ("riem_scalar", "riem_diag", "riem_chol", "riem_dense"):
+        for kind in ("riem_scalar", "riem_diag", "riem_chol", "riem_dense", *("riem_generic:" + g for g in GENERIC_RIEMANNIAN)):
             mp = MetricParam(kind, dim, rng)
             v = rng.standard_normal(np.shape(mp.value(q)))
             jac = fd_grad(mp.value, q)
